@@ -448,6 +448,7 @@ func (d *Dials[T]) updateSourceValue(
 			err: stackErr, oldConfig: oldVal, newConfig: newVal,
 		})
 		if watchTab.installed != nil {
+			verifSched("mon.reply")
 			watchTab.installed <- stackErr
 		}
 		return nil
@@ -465,6 +466,7 @@ func (d *Dials[T]) updateSourceValue(
 			})
 
 			if watchTab.installed != nil {
+				verifSched("mon.reply")
 				watchTab.installed <- vfErr
 			}
 			return nil
@@ -478,6 +480,7 @@ func (d *Dials[T]) updateSourceValue(
 	// We can do a blind-store here because this goroutine (monitor()) has
 	// exclusive ownership of writes to this atomic-value
 	d.value.Store(&versionedConfig[T]{serial: oldSerial.s + 1, cfg: newVers})
+	verifSched("mon.stored")
 	select {
 	case d.updatesChan <- newVers:
 	default:
@@ -485,6 +488,7 @@ func (d *Dials[T]) updateSourceValue(
 
 	// If there's an installed channel, poke it.
 	if watchTab.installed != nil {
+		verifSched("mon.reply")
 		watchTab.installed <- nil
 	}
 
@@ -520,6 +524,7 @@ func (d *Dials[T]) submitEventBlocking(ctx context.Context, ev userCallbackEvent
 	if d.cbch == nil {
 		return false
 	}
+	verifSched("api.submit")
 	select {
 	case <-ctx.Done():
 		return false
@@ -631,12 +636,15 @@ func (d *Dials[T]) monitor(
 	monCtl <-chan verifyEnable[T],
 ) {
 	defer close(d.cbch)
+	defer verifSched("mon.exit")
 	skipVerify := d.params.DelayInitialVerification
 	for {
+		verifSched("mon.loop")
 		select {
 		case <-ctx.Done():
 			return
 		case v := <-monCtl:
+			verifSched("mon.enable")
 			if !skipVerify {
 				// we're not in skipVerify mode, so just send back
 				// a success and continue
